@@ -17,7 +17,7 @@ _twin_dirs = {}
 
 def trees(tier):
     out = [("core", corpus.CORE), ("pairs", corpus.pairs(tier, corpus.seed())[0]),
-           ("pairsB", corpus.pairs(tier, corpus.seed() + 1, 60, False, "B")[0])]
+           ("pairsB", corpus.pairs(tier, corpus.seed() + 1, 60 if tier == "quick" else None, False, "B")[0])]
     for name in twins.TWINS:
         d, n = twins.make(corpus.CORE, name)
         _twin_dirs[name] = d
@@ -56,7 +56,7 @@ def jobs(tier):
         js.append(dict(name=f"wire[pairs:{c['name']}]", fn="wire", args=[corpus.closure(ptypes, c["instrs"]), c, pcfg], tree="pairs", collect_models=1,
                        expect=["serialized length equals the prescribed length"]))
     # the same generated structs in the other file layout (structs in the root file, every type they use defined in a later-walked file)
-    _, btypes, bcls = corpus.pairs(tier, corpus.seed() + 1, 60, False, "B")
+    _, btypes, bcls = corpus.pairs(tier, corpus.seed() + 1, 60 if tier == "quick" else None, False, "B")
     for c in bcls:
         js.append(dict(name=f"wire[pairsB:{c['name']}]", fn="wire", args=[corpus.closure(btypes, c["instrs"]), c, {"lens": [0, 1], "counts": [0, 1]}], tree="pairsB",
                        collect_models=1, expect=["serialized length equals the prescribed length"]))
